@@ -2301,7 +2301,7 @@ def gen_dump_case(rng, i, wu_p=0.25, raw=0.12, specials=0.0):
         ids = rng.sample(range(1, 4 * n + 2), n)
         if rng.random() < 0.3:
             # ids beyond 32 bits (LAMMPS tagint may be 64 bits wide)
-            off = rng.choice([2 ** 31 - 2, 2 ** 32, 2 ** 40 + 3, 2 ** 53 - 100])
+            off = rng.choice([2 ** 31 - 2, 2 ** 32, 2 ** 40 + 3, 2 ** 53 - 100, 2 ** 53 + 1, 2 ** 62 + 5])
             ids = [off + k for k in ids]
         elif rng.random() < 0.25 and n > 1:
             # distinct ids that agree in their low 8 / 16 / 32 bits (keys packed into a narrower integer collide)
